@@ -22,13 +22,17 @@ func init() {
 			"response must lack the blank-line terminator and all three readers must reject it; distinct = (reader pkg, n class, framing, where the cut falls) resp. (route, #volumes, failure kind, position of the failing volume, prefix length). " +
 			"(c) case = scenario (2-3 stub keepstores x 1-2 mounts, over-replicated + under-replicated + garbage blocks, 4-8 collections with ties, page size 1-3); a fault-free Balancer.Run (commit on) numbers its M requests " +
 			"(identified by server+method+path+query+occurrence); then each request x {http500, reset, truncated, malformed} (+ empty list as first page) is failed once; judged for index fetches and GET collections (pages and counts): " +
-			"no PUT /trash or /pull with a non-empty list reaches any stub and Run returns an error; other request types recorded only; distinct = (request type, mode, outcome, commit)",
+			"no PUT /trash or /pull with a non-empty list reaches any stub and Run returns an error; other request types recorded only; distinct = (request type, mode, outcome, commit). " +
+			"(c/delay) stream failstop-delay: scenario with 30-50 collections; every index fetch x mode x 3 (6 thorough) repetitions is failed under PRNG-chosen injected delays " +
+			"(Balancer logger whose calls sleep: 20-100 ms for 3/4 of the entries reporting a problem, 1-6 ms for 1/2 of the debug entries, 1-30 ms for 1/8 of the others; collection pages 1-8 ms; the failing keepstore answers after 3-90 ms), same oracle. " +
+			"The list model implements filters, order, limit, offset, count, select, distinct, include_trash, include_old_versions (1/6 of the rows trashed, 1/6 past versions; both count as existing); any other parameter ⇒ inconclusive",
 		Assume: []string{
 			"the API server orders uuid bytewise and returns modified_at as RFC3339 UTC ('Z'), as the model does",
 			"modified_at of a changed/new collection is strictly later than every timestamp that existed when the change was made; changes made in one batch between two requests may share that timestamp",
 			"a server never answers a list request with zero items while matching rows exist (short pages contain at least one row)",
 			"HTTP transport without connection reuse (no transparent retry of a failed request)",
 			"Directory volumes on the local filesystem",
+			"injected delays (sleeps in the log sink and in the stub servers) change timing only; they never alter a response or a verdict rule",
 		},
 	})
 }
